@@ -836,9 +836,14 @@ impl<C: Ctxt> Ctxt for TraceparentCtxt<C> {
 
         let inner = self.inner.open_push(props);
 
+        // If the props don't carry a new span then capture the active traceparent,
+        // so that frames like `Frame::current` carry it to other threads and tasks
+        // along with the properties captured by the inner context
+        let slot = slot.or_else(get_active_traceparent);
+
         TraceparentCtxtFrame {
             inner,
-            active: slot.is_some(),
+            active: true,
             slot,
         }
     }
@@ -849,9 +854,12 @@ impl<C: Ctxt> Ctxt for TraceparentCtxt<C> {
 
         let inner = self.inner.open_disabled(props);
 
+        // Like `open_push`, a disabled frame still carries the traceparent it was created in
+        let slot = slot.or_else(get_active_traceparent);
+
         TraceparentCtxtFrame {
             inner,
-            active: slot.is_some(),
+            active: true,
             slot,
         }
     }
